@@ -35,6 +35,28 @@ Theorem C12_dispatch_is_the_translated_source : forall h a mc w,
   Some (sd_message_received h a mc w) = if gen_sd_accept (sd_unicast h) then run_dispatch (sd_entries h) a mc w else Some w.
 Proof. exact sd_message_received_is_the_translated_source. Qed.
 
+(* answering a FindService is the control flow translated from the source text of sd.py on every run: which instances match
+   (ready AND the service's wildcard rules), nothing when none does, the answers deferred by one drawn delay (multicast) or
+   to the next iteration (unicast), and readiness judged again when the answer fires *)
+Theorem C12_handle_findservice_is_the_translated_source : forall e a mc w,
+  let matching := filter (fun i => inst_matches_find e i w) (announcing w) in
+  announcer_handle_findservice e a mc w
+  = fst (fold_left (run_fact e a matching) (gen_handle_find (match matching with [] => false | _ => true end) mc) (w, 0)).
+Proof. exact handle_findservice_is_the_translated_source. Qed.
+Theorem C12_instance_matches_find_is_the_translated_source : forall e i w ins,
+  get_inst i w = Some ins ->
+  inst_matches_find e i w
+  = gen_inst_matches_find (in_can_answer ins) (match matches_find (in_service ins) e with Ok true => true | _ => false end).
+Proof. exact inst_matches_find_is_the_translated_source. Qed.
+Theorem C12_answer_find_is_the_translated_source : forall i a w ins,
+  get_inst i w = Some ins ->
+  answer_find i a w = fold_left (fun acc f => match f with FSendOffer => inst_send_offer i (Some a) false acc | _ => acc end)
+                                (gen_answer_find (in_can_answer ins)) w.
+Proof. exact answer_find_is_the_translated_source. Qed.
+
+Print Assumptions C12_handle_findservice_is_the_translated_source.
+Print Assumptions C12_instance_matches_find_is_the_translated_source.
+Print Assumptions C12_answer_find_is_the_translated_source.
 Print Assumptions C12_who.
 Print Assumptions C12_unicast_without_delay.
 Print Assumptions C12_multicast_within_window.
